@@ -2,7 +2,10 @@
 import re
 
 from engine.facts import Slicer, Site, norm, operand_local
-from engine import kinds
+from engine import kinds, intervals
+from engine.slicing import FlowSlicer
+
+USIZE_BITS = 64          # the analysed target (x86_64); the writer's upper bound is usize::BITS
 
 CRATES = {"shuttle_engine", "shuttle_schedulers"}
 EXPLANATION = (
@@ -84,6 +87,13 @@ def guarded_load(prog, body, site, term):
     if recv is None:
         return False
     _, recv_locals = sl.slice_operand(recv)
+    # preferred: the width that feeds the loaded bit range is confined to [1, usize::BITS] by the dominating branches, whatever their
+    # spelling (comparisons, `(a..b).contains(&w)`, `(a..=b).contains(&w)`)
+    for l in sorted(recv_locals):
+        if body.local_ty(l) in ("usize", "u64", "u32") and body.local_name(l):
+            iv = intervals.accepted_interval(prog, body, l, site)
+            if iv is not None and iv[0] is not None and iv[1] is not None and iv[0] >= 1 and iv[1] <= USIZE_BITS:
+                return True
     for b in body.blocks:
         t = b["term"]
         if t["k"] != "switch" or b.get("cleanup"):
@@ -409,6 +419,26 @@ def r4_layout(ctx):
             if rv["k"] == "aggr" and rv.get("ak") == "adt" and norm(rv["adt"]) == "core::ops::range::Range":
                 out.add((_canon(lin.op(rv["ops"][0])), _canon(lin.op(rv["ops"][1]))))
         return out
+    # width agreement: the writer uses max(usize::BITS - leading_zeros(max id), 1) bits, i.e. any width in [1, usize::BITS]; the reader must
+    # accept exactly those (narrower: a schedule the writer produced is rejected; wider: the load could panic, R1)
+    wl = wr.locals_named("task_id_bits")
+    wlabs = set()
+    for l in wl:
+        for st in Lin(wr).defs.get(l, []):
+            for o in (st.get("args") or st.get("rv", {}).get("ops") or []):
+                wlabs |= FlowSlicer(wr, control=False).operand_labels(o, [s for s in wr.sites() if wr.at(s) is st][0])
+            if st.get("k") == "call":
+                wlabs |= {"call:" + c for c in wr.callees_of_call(st, passed=False)}
+    w_ok = any(l.endswith("leading_zeros") for l in wlabs) and any(l.endswith("::max") for l in wlabs) and "const:1" in wlabs
+    ctx.ob("C16.R4", "writer-width-is-clamped-bit-length", w_ok, "the writer's id width is max(bit length of the largest id, 1): a value in [1, usize::BITS]", loc=wr.loc())
+    rl = rd.locals_named("task_id_bits")
+    loads = [s for s, t in rd.calls() if any("BitField::load" in c for c in rd.callees_of_call(t, passed=False))]
+    iv = intervals.accepted_interval(prog, rd, rl[0], loads[0]) if rl and loads else None
+    ok_iv = iv is not None and iv[0] is not None and iv[1] is not None and iv[0] <= 1 and iv[1] >= USIZE_BITS
+    ctx.ob("C16.R4", "reader-accepts-every-writer-width", ok_iv,
+           "the reader accepts every id width the writer can emit: accepted interval %s covers [1, %d]" % (iv, USIZE_BITS) if ok_iv else
+           "the reader accepts id widths %s but the writer emits any width in [1, %d]: a schedule containing a task id that needs a rejected width "
+           "does not survive the round trip" % (iv, USIZE_BITS), loc=rd.loc(loads[0]) if loads else rd.loc())
     rr, wrr = ranges(rd), ranges(wr)
     want_r = {(_canon({"offset": 1, "const": 1}), _canon({"offset": 1, "bits": 1, "const": 1}))}
     ctx.ob("C16.R4", "id-bit-range-agrees", rr == want_r and want_r <= wrr,
